@@ -9,7 +9,7 @@ from smartquery.custom_types import Decimal
 from smartquery.exceptions import ParserError, OpsExecutionLimitExceededError
 from smartquery.functions import _dict_key_cast
 from smartquery.utils import safe_cast
-from smartquery.vm_state import VMState
+from smartquery.vm_state import VMState, active_state
 
 
 NUMERIC_TYPES = (Decimal_, int, float)
@@ -252,9 +252,13 @@ class LambdaOp(Op):
         super().eval(state)
 
         def f(*args):
-            with state.names.make_scope({
+            # a lambda kept in names can be called by a later eval:
+            # it must run (and be charged) under the evaluation in progress, not the one that created it
+            cur_state = active_state(default=state)
+
+            with cur_state.names.make_scope({
                 k.name: v for k, v in zip(self.args, args)
             }):
-                return self.expr.eval(state)
+                return self.expr.eval(cur_state)
 
         return f
